@@ -105,7 +105,7 @@ fn hex(b: &[u8]) -> String {
     b.iter().map(|x| format!("{:02x}", x)).collect()
 }
 
-const TOKENS: [&[u8]; 33] = [
+const TOKENS: [&[u8]; 40] = [
     b"ffffffffffffffff\r\n",
     b"7fffffffffffffff\r\n",
     b"8000000000000000;x\r\n",
@@ -140,6 +140,14 @@ const TOKENS: [&[u8]; 33] = [
     b"Content-Length: , 5\r\n",
     b"Content-Length:  \r\n",
     b"Location: \r\n",
+    // Locations whose authority is odd: what is accepted here is the base of the next hop
+    b"Location: http://b.test:99999/next\r\n",
+    b"Location: http://b.test:0/\r\n",
+    b"Location: http://b.test:/x\r\n",
+    b"Location: http://:80/\r\n",
+    b"Location: //\r\n",
+    b"Location: http://b.test:65536\r\n",
+    b"Location: HTTP://B.TEST:080/%\r\n",
 ];
 
 /// Stage 'mutants': a valid exchange (C01's generator), 1..4 grammar-aware mutations, random schedule.
